@@ -18,9 +18,9 @@ from ..core.framework import Ctx, b2s
 
 SPEC = {
     "modules": ["HC.Props.C16"],
-    "extracted": ["Runtime"],
+    "extracted": ["Runtime", "AppExit"],
     "technique": "Lean 4 simulation theorem: the connection shell (reader loop, idle single-task, send lock, close paths) parametrised by a Runtime record extracted from the two tcp_server.py / worker_context.py files yields the same observation for both records on every event sequence, under side conditions proved of the protocol models (handle(Closed) idempotent and silent afterwards; every Event.clear happens with no foreign waiter) — tied by twin runs of the real TCPServer of both workers under virtual time on generated HTTP/1, HTTP/2 and WebSocket sessions",
-    "level_text": "Proved in Lean for every sequence of connection-level operations (reads of any bytes, EOF, read errors, write failures, idle expiry, terminate, protocol-initiated close, Updated(idle) in any order) and every protocol machine satisfying the stated side conditions: the asyncio and the trio connection shell hand the protocol the same event sequence up to repetitions of Closed after the first, write the same bytes, and close the transport after the same operation; the side conditions are theorems of the H11 / stream / HTTP/2-send models (Closed is absorbing and silent; an event is only ever cleared by its own sole waiter or while nobody waits), which is what makes trio's replace-on-clear and non-awaited task cancellation unobservable.  Tie on every run: generated sessions (HTTP/1 pipelines with every segmentation class, pauses below/at/above the keep-alive timeout, EOF / reset / write failure at any point, terminate at any time, malformed input, request maximum, slow and failing applications; HTTP/2 multi-stream sessions with window games, resets, GOAWAY; WebSocket sessions over both carriers) run on both workers under virtual time, observations compared field by field (application scopes and message sequences, parsed client events, close instant in virtual ms).",
+    "level_text": "Proved in Lean for every sequence of connection-level operations (reads of any bytes, EOF, read errors, write failures, idle expiry, terminate, protocol-initiated close, Updated(idle) in any order) and every protocol machine satisfying the stated side conditions: the asyncio and the trio connection shell hand the protocol the same event sequence up to repetitions of Closed after the first, write the same bytes, and close the transport after the same operation; the side conditions are theorems of the H11 / stream / HTTP/2-send models (Closed is absorbing and silent; an event is only ever cleared by its own sole waiter or while nobody waits), which is what makes trio's replace-on-clear and non-awaited task cancellation unobservable; the try/except/finally shapes of both task_group.py::_handle, extracted from the source, log, signal completion and re-raise alike on return, exception, cancellation and exception group, and trio's second send(None) is silent on both stream models.  Tie on every run: generated sessions (HTTP/1 pipelines with every segmentation class, pauses below/at/above the keep-alive timeout, EOF / reset / write failure at any point, terminate at any time, malformed input, request maximum, slow and failing applications; HTTP/2 multi-stream sessions with window games, resets, GOAWAY; WebSocket sessions over both carriers) run on both workers under virtual time, observations compared field by field (application scopes and message sequences, parsed client events, close instant in virtual ms).",
     "level_note": "Trusted: Lean kernel; the shell model HC/Conn/Shell.lean is hand-written (its Runtime record is regenerated from the two source files by the extractor: except tuples of the read/write paths, whether protocol_send(Closed) re-enters the protocol, whether _close stops the idle task, replace-vs-clear, awaited-vs-not cancellation); equality of the two real schedulers (task wake-up order inside one virtual instant) is sampled, not proved; close instants are compared at millisecond granularity under virtual clocks only; TLS (ALPN negotiation, SSL read errors) is outside.",
     "rule": "family (h1 / h2 / ws-h1 / ws-h2) x ending (idle timeout, EOF, reset, write failure, terminate, server close) x segmentation class x application behaviour; distinct = distinct (family, ending, request kinds, app behaviours, segmentation, config class); non-trivial = the session exercises at least one worker-specific primitive (idle task restart/stop, server-side close, EOF, write failure, event clear)",
     "trusted": ["the in-memory transports of harness/core/runner.py present the same byte/EOF/error behaviour to both workers"],
@@ -166,7 +166,9 @@ def gen_h2(rng: random.Random) -> dict:
                     sends.append(["send", {"type": "http.response.body"}])
                 for j, c in enumerate(resp_chunks):
                     sends.append(["send", {"type": "http.response.body", "body": c.encode(), "more_body": j < len(resp_chunks) - 1}])
-        tail = [["raise"]] if crash else []
+        # a bare exception or an ExceptionGroup (an application with a task group of its own): the two task groups catch them in
+        # different `except` clauses (Props/C16 task_groups_agree)
+        tail = [[rng.choice(["raise", "raise", "raise_group"])]] if crash else []
         when = rng.choice(["after_body", "after_body", "eager", "never_read", "slow"])
         pre = {"after_body": [["recv_body"]], "eager": [], "never_read": [], "slow": [["sleep", rng.choice([0.5007, T_keep + 0.5007])], ["recv_body"]]}[when]
         if kind == "connect_ws":
@@ -239,7 +241,7 @@ def gen_ws(rng: random.Random) -> dict:
         case["app"] = case["app"][:-1] + [["recv"], ["send", {"type": "websocket.close", "code": 4000}], ["recv"]]
         cl = [c for c in cl if c[0] not in ("close", "eof")] + [["flush"], ["sleep", 0.2], ["reply_close"], ["eof"]]
     elif ending == "app_raise":
-        case["app"] = case["app"][:-1] + [["recv"], ["raise"]]
+        case["app"] = case["app"][:-1] + [["recv"], [rng.choice(["raise", "raise_group"])]]
     case["client"] = cl
     case["cfg"]["keep_alive_timeout"] = rng.choice([1, 5])
     case["meta"] = {"carrier": carrier, "seg": seg[0], "ending": ending, "deflate": sess["deflate"], "over": any(m[4] in ("max+1", "2max") for m in sess["msgs"])}
@@ -387,6 +389,8 @@ def corpus() -> List[dict]:
     h1([["send", get + get + get]], "pipeline", cfg={"keep_alive_max_requests": 2})
     h1([], "silent_client")
     h1([["send", get]], "app_raises", apps=[[["raise"]]])
+    h1([["send", get]], "app_raises_group", apps=[[["raise_group"]]])
+    h1([["send", get]], "app_raises_group_after_start", apps=[[ok[1], ["raise_group"]]])
     h1([["send", get]], "slow_app_past_timeout", apps=[[["sleep", 3.0007]] + ok])
     slow = [["recv_body"], ["sleep", 1.5007]] + ok[1:]
     h1([["send", get + get]], "read_timeout_pipelined_behind_slow_response", cfg={"read_timeout": 0.5, "keep_alive_timeout": 5}, apps=[slow, ok])
